@@ -6,6 +6,19 @@ import sys
 import warnings
 
 warnings.filterwarnings("ignore")
+
+# numba's on-disk cache (cache=True functions write next to the source, i.e. into /repo/strax/**/__pycache__)
+# confuses structured dtypes that differ only in shapes/titles: feeding strax's jitted functions unusual dtypes
+# from here would poison the cache that strax's own test-suite then loads. Always use a private, per-run cache.
+if "NUMBA_CACHE_DIR" not in os.environ:
+    import atexit
+    import shutil
+    import tempfile
+
+    _nb = tempfile.mkdtemp(prefix="verif_numba_")
+    os.environ["NUMBA_CACHE_DIR"] = _nb
+    _pid = os.getpid()
+    atexit.register(lambda: shutil.rmtree(_nb, ignore_errors=True) if os.getpid() == _pid else None)
 REPO = os.environ.get("STRAX_REPO", "/repo")
 if REPO not in sys.path:
     sys.path.insert(0, REPO)
